@@ -21,6 +21,7 @@ import (
 	"encoding/json"
 	"errors"
 	"fmt"
+	"os"
 	"sort"
 	"strings"
 
@@ -864,6 +865,43 @@ func (g *G) c13Loaders(d *c13CDoc, syntaxOverride string) []*c13Loader {
 			},
 			compile: func() (*core.Spec, error) {
 				_, spec, err := sio.ResolveSpecSource(context.Background(), map[string]interface{}{"inline": m})
+				return spec, err
+			}})
+	}
+	// sio: ResolveSpecSource with a source given by URL (file://): the body is a JSON document (first byte '{') or a YAML one
+	for _, asJSON := range []bool{true, false} {
+		asJSON := asJSON
+		name, keys := "sio-url-yaml", c13YamlKeys
+		if asJSON {
+			name, keys = "sio-url-json", c13JsonKeys
+		}
+		m := d.docMap(keys, js, g.c13TextPat(false, false))
+		ls = append(ls, &c13Loader{name: name, force: true, ints: sio.Interpreters,
+			load: func() (*core.Spec, error) {
+				if asJSON {
+					return c13ViaJSON(m)
+				}
+				return c13ViaYAML2(m)
+			},
+			compile: func() (*core.Spec, error) {
+				var body []byte
+				var err error
+				if asJSON {
+					body, err = json.Marshal(m)
+				} else {
+					body, err = yaml2.Marshal(m)
+				}
+				if err != nil {
+					return nil, err
+				}
+				f, err := os.CreateTemp("", "vspec*.doc")
+				if err != nil {
+					return nil, err
+				}
+				defer os.Remove(f.Name())
+				f.Write(body)
+				f.Close()
+				_, spec, err := sio.ResolveSpecSource(context.Background(), map[string]interface{}{"url": "file://" + f.Name()})
 				return spec, err
 			}})
 	}
